@@ -354,8 +354,13 @@ def main(run):
             num = np.zeros(len(q1)); den = 0.0
             for v, w in zip(vals, wts):
                 F = call_Fq(kern, dict(pars, **{p.name: float(v)}), cutoff=0.0)
+                # a point the model declares invalid (e.g. capped_cylinder with radius > radius_cap) takes no part in
+                # the average: the kernel reports a total weight of zero for it
+                if getattr(kern, "result", None) is not None and not (sas.raw_sums(kern, len(q1))["norm"] > 0):
+                    stats["array_invalid_points"] = stats.get("array_invalid_points", 0) + 1
+                    continue
                 num += w * np.asarray(F[1]); den += w * F[3]
-            want = scale * num / den + bg
+            want = scale * num / den + bg if den else np.full(len(q1), bg)
             evals += 1 + n
             stats["array_distribution"] += 1
             if rel(C, want) > 1e-10:
